@@ -632,7 +632,7 @@ class Monitor:
             elif cur is not None and not cur.gone and self.expired(cur):
                 hidden += cur.cost    # expired, possibly still resident
         h = self.h
-        shape = ("readmit" if (h.pol in ("fifo", "clock") and self.overwrite_cost and self.nm) else
+        shape = ("readmit" if (h.pol == "fifo" and self.overwrite_cost and self.nm) else
                  "partial-drain" if (self.partial_drain and self.overwrite_cost) else
                  "stale-write-event" if self.stale_event else None)
         if not (visible <= cc <= visible + hidden):
